@@ -174,6 +174,7 @@ func (r *runner) put(rec *hx.Record) {
 
 type runner struct {
 	mu      sync.Mutex
+	crashes int // protocol inputs attributed to a dead worker in this run
 	tr      *hx.Trace
 	sw      *syncWorld
 	rng     *hx.Rng
